@@ -76,8 +76,11 @@ class ShapelyPolygon(Domain):
             if len(points) >= n:
                 break
         points = self._check_enough_points_sampled(n, points, None, device)
-        # the triangulation covers the convex hull, so the rounded shares can add up
-        # to some points more than asked for
+        # the points were created triangle by triangle: mix them, so that every block
+        # of rows (one block per parameter row, or a truncated sample) is uniform in the
+        # whole polygon. The triangulation covers the convex hull, so the rounded
+        # shares can add up to some points more than asked for.
+        points = points[torch.randperm(len(points), device=device)]
         return Points(points[:n], self.space)
 
     def _sample_in_triangulation(self, t, n, device):
@@ -232,9 +235,12 @@ class ShapelyBoundary(BoundaryDomain):
     ):
         n = self._compute_number_of_points(n, d, params)
         line_points = torch.rand(n, device=device) * self.domain.polygon.boundary.length
-        return self._transform_points_to_boundary(
+        points = self._transform_points_to_boundary(
             n, torch.sort(line_points).values, device
         )
+        # the points are ordered along the outline: mix them, so that every block of
+        # rows (one block per parameter row) is uniform on the whole outline
+        return Points(points.as_tensor[torch.randperm(n, device=device)], self.space)
 
     def sample_grid(self, n=None, d=None, params=Points.empty(), device="cpu"):
         n = self._compute_number_of_points(n, d, params)
